@@ -371,8 +371,11 @@ class SlotSim:
                 callee = t[1]
                 nm = callee[1] if callee[0] == "ref" else None
                 if nm == "swap" and len(t) == 4 and nm not in ("",):
-                    ak, _ = self.storage_of(t[2], bind)
-                    bk, _ = self.storage_of(t[3], bind)
+                    ak, af = self.storage_of(t[2], bind)
+                    bk, bf = self.storage_of(t[3], bind)
+                    if ak is not None and bk is not None and "stack" in (af, bf):
+                        raise SlotViolation("the in-place buffers of `%s` and `%s` are exchanged as raw bytes: the stored objects are relocated without their move "
+                                            "constructor/destructor (self-referential or registered objects break)" % (ak, bk))
                     if ak is not None and bk is not None and self.fns.get("swap") is not None and \
                             (ir.strip(ir.ekids(n)[0]).get("referencedDecl") or {}).get("id") != self.fns["swap"].get("id"):
                         st[ak], st[bk] = st[bk], st[ak]
